@@ -443,6 +443,7 @@ Definition authz_verify (c : mclass) (nonce_kw : option pystr) (m : msg) : res m
    (oauth2.AuthorizationRequest).  Order of the code: unpack, merge, store the verified object under the
    marker key, and LAST the generic check - on the message as it stands after the merge. *)
 Definition EMissingAttribute : exc := Refused 15.   (* MissingAttribute *)
+Definition EParameter : exc := Refused 19.          (* ParameterError *)
 Definition keep_keys (ro m : msg) : msg := List.filter (fun kv => has_key (fst kv) ro) m.
 (* Message.update(other message): self._dict[key] = val for every item *)
 Definition msg_update (ro m : msg) : msg := fold_left (fun acc kv => aset (fst kv) (snd kv) acc) ro m.
